@@ -56,7 +56,9 @@ def _worker(task):
 
     def violation(fn, site, x, spec, kw, today, observed, expected, relation):
         size = (len(x) if isinstance(x, str) else 0) + len(kw)
-        tb = repr((x if spec is None else spec, G.kw_key(kw), str(today)))[:400]
+        # ties: plain common.non_strings() values before the hostile objects
+        tb = ('0' if spec is None or spec[0] == 'ns' else '1') + repr(
+            (x if spec is None else spec, G.kw_key(kw), str(today)))[:400]
         fnd.add(modname, fn, site, size, tb, lambda: G.make_case(
             modname, fn, [x], kw, observed, expected, site, relation, today=today,
             arg_descr=[G.describe_spec(spec)] if spec is not None else None))
